@@ -278,6 +278,9 @@ def process_unit(u, findings, workdir, seed, rlimit_mult=1, variants=('main', 's
 
 def _process_unit(u, findings, workdir, seed, rlimit_mult=1, variants=('main', 'strict', 'canary')):
     ur = UnitRun(u)
+    if getattr(u, 'kani_only', False):
+        ur.ledger = {}
+        return ur
     bad = u.fidelity()
     if bad:
         ur.undecided.append('fidelity: ' + '; '.join(bad))
@@ -379,6 +382,7 @@ def write_replay(pid, idx, f, extra=None):
 
 def check_property(pid, tier='quick', seed=0):
     t0 = time.time()
+    os.environ['VERIF_TIER_EFFECTIVE'] = tier
     units, properties = registry()
     if pid not in properties:
         print('unknown or unclaimed property %s' % pid)
@@ -431,7 +435,7 @@ def check_property(pid, tier='quick', seed=0):
             tm, sm = verus_smt_ms(ur.results['main'])
             total_ms += tm
             smt_ms += sm
-            if v + e == 0:
+            if v + e == 0 and not getattr(u, 'kani_only', False):
                 undecided.append('%s: verus reported zero verified items (vacuity guard)' % u.uid)
             if v + e < u.expected_min_fns:
                 undecided.append('%s: verus checked %d items, unit declares at least %d' % (u.uid, v + e, u.expected_min_fns))
